@@ -719,9 +719,14 @@ def r7_module_join(ctx):
             f_, seq = ev.ex(call.args[0]), list(ev.iterate(ev.ex(call.args[1])))
             acc = seq[0] if len(call.args) < 3 else ev.ex(call.args[2])
             for y in (seq[1:] if len(call.args) < 3 else seq):
-                if not (isinstance(f_, tuple) and f_ and f_[0] == "<lambda>"):
-                    raise PUnsupported("functools.reduce with something that is not a lambda")
-                acc = ev.apply_lambda(f_, [acc, y])
+                if isinstance(f_, tuple) and f_ and f_[0] == "<lambda>":
+                    acc = ev.apply_lambda(f_, [acc, y])
+                elif isinstance(f_, tuple) and f_ and f_[0] == "<closure>":
+                    # a local function: called with the two values bound to fresh names
+                    ev.env["__red_f"], ev.env["__red_a"], ev.env["__red_b"] = f_, acc, y
+                    acc = ev.ex(ast.parse("__red_f(__red_a, __red_b)", mode="eval").body)
+                else:
+                    raise PUnsupported("functools.reduce with something that is neither a lambda nor a local function")
             return acc
         try:
             ts = TenSym({}, models={"functools.reduce": reduce_, "reduce": reduce_})
